@@ -6,13 +6,20 @@ Line-protocol driver for C10. One request = one batch:
         {"op":"addStatics", "a":[i…], "b":[i…], "statics":[str…], "impl":R}
         {"op":"periodMerge", "a":[i…], "b":[i…], "suffix":str|null, "impl":R}
   R = {"ok": [i…]} (join: [[i|null, i|null]…]) | {"err": class}
-answer {"res":[{"same":bool, "hyp":bool, "spec":bool|null, "model":dump (only when not same)} …]}.
+answer {"res":[{"same":bool, "hyp":bool, "spec":bool|null, "via":str|null, "model":dump (only when not same)} …]}.
 "same": model result = implementation result (join: as multisets of pairs — Python returns them in
 set-iteration order). addStatics / periodMerge: the model compared with the implementation is the literal loop
 (`addStaticsLit`, `periodMergeLit`); "direct": the direct form (`addStatics`, `periodMerge`, about
 which the theorems are stated; equal by `addStaticsLit_eq` / `periodMergeLit_eq`) gives the same.
-"hyp": the distinct-keys hypothesis of the Spec predicate holds for the input. "spec": the Spec
-predicate on the implementation's output (null: hypothesis false / implementation raised).
+"hyp": the distinct-keys hypothesis holds for the input. "spec": the Spec predicate(s) on the
+implementation's output, "via": which predicate(s) gave the verdict:
+  join / merge   hypothesis-free `joinSpecLast` / `mergeSpecLast` on EVERY case (bridges
+                 `joinSpecLast_of_join`, `mergeSpecLast_of_merge`), and additionally `joinSpec` / `mergeSpec`
+                 when "hyp" holds (the conjunction is reported);
+  coalesce       `coalesceSpec` on every case (`coalesceSpec_of_coalesce` has no hypothesis; "hyp" is information);
+  addStatics / periodMerge   only when "hyp" holds.
+null: no predicate applies (hypothesis false for addStatics / periodMerge, unknown join type) or the
+implementation raised.
 -/
 import Bermuda.Model.Json
 import Bermuda.Model.Join
@@ -65,16 +72,23 @@ def implOf {α} (f : Json → Except String α) (j : Json) : Except String (Exce
   | .error _ => return .ok (← f (← r.getObjVal? "ok"))
 
 def answer {α} (toJ : α → Json) (eq : α → α → Bool) (model : Except Err α)
-    (impl : Except String α) (hyp : Bool) (spec : α → Bool) : Json :=
+    (impl : Except String α) (hyp : Bool) (spec : α → Option (String × Bool)) : Json :=
   let same := match model, impl with
     | .ok m, .ok i => eq m i
     | .error e, .error c => e.name == c
     | _, _ => false
-  let specJ : Json := match impl with
-    | .ok i => if hyp then Json.bool (spec i) else Json.null
-    | .error _ => Json.null
-  if same then Json.mkObj [("same", true), ("hyp", hyp), ("spec", specJ)]
-  else Json.mkObj [("same", false), ("hyp", hyp), ("spec", specJ), ("model", exceptToJson toJ model)]
+  let (specJ, viaJ) : Json × Json := match impl with
+    | .ok i => match spec i with
+      | some (via, v) => (Json.bool v, Json.str via)
+      | none => (Json.null, Json.null)
+    | .error _ => (Json.null, Json.null)
+  if same then Json.mkObj [("same", true), ("hyp", hyp), ("spec", specJ), ("via", viaJ)]
+  else Json.mkObj [("same", false), ("hyp", hyp), ("spec", specJ), ("via", viaJ),
+    ("model", exceptToJson toJ model)]
+
+/-- a predicate that needs the hypothesis -/
+def gated {α} (hyp : Bool) (name : String) (spec : α → Bool) (x : α) : Option (String × Bool) :=
+  if hyp then some (name, spec x) else none
 
 def exceptEq (x y : Except Err (List Cell)) : Bool :=
   match x, y with
@@ -92,8 +106,13 @@ def handleItem (tbl : Array Cell) (j : Json) : Except String Json := do
     let a ← idxList tbl (← j.getObjVal? "a")
     let b ← idxList tbl (← j.getObjVal? "b")
     let impl ← implOf (pairList tbl) j
-    return answer pairsToJson permB (join ty on a b) impl (ty.isSome && Spec.joinHyp on a b)
-      (fun ps => match ty with | some t => Spec.joinSpec t on a b ps | none => false)
+    let hyp := ty.isSome && Spec.joinHyp on a b
+    return answer pairsToJson permB (join ty on a b) impl hyp
+      (fun ps => match ty with
+        | some t =>
+          if hyp then some ("joinSpec+joinSpecLast", Spec.joinSpec t on a b ps && Spec.joinSpecLast t on a b ps)
+          else some ("joinSpecLast", Spec.joinSpecLast t on a b ps)
+        | none => none)
   | "merge" =>
     let tyS ← (← j.getObjVal? "ty").getStr?
     let ty := JoinType.ofString? tyS
@@ -101,12 +120,19 @@ def handleItem (tbl : Array Cell) (j : Json) : Except String Json := do
     let a ← idxList tbl (← j.getObjVal? "a")
     let b ← idxList tbl (← j.getObjVal? "b")
     let impl ← implOf (idxList tbl) j
-    return answer cellsToJson (· == ·) (merge ty on a b) impl (ty.isSome && Spec.joinHyp on a b)
-      (fun out => match ty with | some t => Spec.mergeSpec t on a b out | none => false)
+    let hyp := ty.isSome && Spec.joinHyp on a b
+    return answer cellsToJson (· == ·) (merge ty on a b) impl hyp
+      (fun out => match ty with
+        | some t =>
+          if hyp then some ("mergeSpec+mergeSpecLast", Spec.mergeSpec t on a b out && Spec.mergeSpecLast t on a b out)
+          else some ("mergeSpecLast", Spec.mergeSpecLast t on a b out)
+        | none => none)
   | "coalesce" =>
     let ts ← (← (← j.getObjVal? "ts").getArr?).toList.mapM (idxList tbl)
     let impl ← implOf (idxList tbl) j
-    return answer cellsToJson (· == ·) (coalesce ts) impl (Spec.coalesceHyp ts) (Spec.coalesceSpec ts)
+    -- `coalesceSpec_of_coalesce` needs no hypothesis: verdict on every case
+    return answer cellsToJson (· == ·) (coalesce ts) impl (Spec.coalesceHyp ts)
+      (fun out => some ("coalesceSpec", Spec.coalesceSpec ts out))
   | "addStatics" =>
     let a ← idxList tbl (← j.getObjVal? "a")
     let b ← idxList tbl (← j.getObjVal? "b")
@@ -115,7 +141,7 @@ def handleItem (tbl : Array Cell) (j : Json) : Except String Json := do
     -- compared with the implementation: the LITERAL loop; "direct": the direct form agrees with it
     let lit := addStaticsLit a b statics
     let r := answer cellsToJson (· == ·) lit impl (Spec.addStaticsHyp a b)
-      (Spec.addStaticsSpec a b statics)
+      (gated (Spec.addStaticsHyp a b) "addStaticsSpec" (Spec.addStaticsSpec a b statics))
     return r.setObjVal! "direct" (Json.bool (exceptEq lit (addStatics a b statics)))
   | "periodMerge" =>
     let a ← idxList tbl (← j.getObjVal? "a")
@@ -126,7 +152,7 @@ def handleItem (tbl : Array Cell) (j : Json) : Except String Json := do
     let impl ← implOf (idxList tbl) j
     let lit := periodMergeLit a b suffix
     let r := answer cellsToJson (· == ·) lit impl (Spec.leftHyp a)
-      (Spec.periodMergeSpec a b suffix)
+      (gated (Spec.leftHyp a) "periodMergeSpec" (Spec.periodMergeSpec a b suffix))
     return r.setObjVal! "direct" (Json.bool (exceptEq lit (periodMerge a b suffix)))
   | o => throw s!"unknown op {o}"
 
